@@ -9,7 +9,7 @@ Driver ops for C13 (and, re-exported, C12): the label codec `Xrfmv.Codec` evalua
                                                    -> raw decoded rows (before clamping), clamped-normalised
                                                       probabilities, arg-max labels
 Rejected (`bad-op`): K < 2, ragged or wrongly sized matrices, non-finite numbers, labels ≥ K where the
-code raises (one-hot, prevalence), an all-zero count vector, eps outside (0, 1).
+code raises (one-hot, prevalence), an all-zero count vector, eps outside [0, 1) (the code accepts any float; `eps = 0` clamps to [0, 1]).
 -/
 import Xrfmv.Drv.Common
 import Xrfmv.Model.Codec
@@ -59,7 +59,7 @@ def getPrior (j : Json) (K : Nat) : Except String (Vec Float K) := do
 
 def getEps (j : Json) : Except String Float := do
   let e ← getF j "eps"
-  if !(0.0 < e && e < 1.0) then throw "bad-op: eps outside (0,1)"
+  if !(0.0 <= e && e < 1.0) then throw "bad-op: eps outside [0,1)"
   pure e
 
 def opQContract : Handler := fun j => do
